@@ -100,7 +100,7 @@ def gen_case(rng, index, tier):
                 sched=gen_sched(rng), faults=[], cfg=dict(cache=rng.random() < 0.7, twice=rng.random() < 0.3))
     if rng.random() < (0.10 if tier == 'thorough' else 0.04) and kind in ('expr', 'locate'):
         # kill-point sweep on a small instance
-        case.update(sweep=True, gran='sync', nprocs=rng.choice([2, 2, 3]), faults=[])
+        case.update(sweep=True, gran='sync', nprocs=rng.choice([2, 2, 3]), faults=[], budget_s=60 if tier == 'thorough' else 15)
         case['cfg']['twice'] = False
         for key in ('n', 'npts'):
             if key in prog:
@@ -404,7 +404,7 @@ def run_sweep(case):
         t0 = _time.monotonic()
         done = 0
         for q, n in points:
-            if _time.monotonic() - t0 > 40:
+            if _time.monotonic() - t0 > case.get('budget_s', 15):
                 break    # wall budget of a sweep (slow machine): the remaining kill points are left to other cases
             done += 1
             faults = [dict(kind='KILL', proc=q, ykind='ANY', n=n)]
